@@ -51,6 +51,12 @@ CHECKS = {
    design_ref="DESIGN.md section 6 C15",
    note=COMMON_NOTE + "That group-level operations leave the Group unchanged on a storage error is established on the implementation by exhaustive single-fault injection, not by a theorem about a Group model. Three defects found this way were repaired (fix: commits); known finding F2d (encrypted message key consumed before processing succeeds).",
    technique="Coq proof over repository fault model + exhaustive single-fault injection"),
+ "C08": dict(
+   category="proof",
+   text="Coq theorems (Props/C08.v) over a model of the tree array and of the commit operations written in the shape of tree_kem/mod.rs / node.rs on the translated tree math: for EVERY tree and operation sequence leaves stay on even and parents on odd indices, the tree never ends in a blank node, a new leaf takes the leftmost blank slot or extends the tree by one leaf. Tie: the model's tree after every commit of generated histories (growth, shrink, regrowth, interior blanks, unmerged leaves, filtered path nodes) equals every member's exported tree node by node; the tree hash of every exported tree is recomputed from its bytes inside Coq by an RFC 9420 7.8 implementation over Gallina SHA-256 (independent of tree_hash.rs) and equals the hash in the group context. PARTIAL: parent-hash chain validity and unmerged-leaf consistency are not theorems; every exported tree is instead validated by the library's own observer / joiner validation.",
+   design_ref="DESIGN.md section 6 C08",
+   note=COMMON_NOTE + "Hand-modelled: Model/Tree.v, Model/TreeHashRFC.v. Parent-hash validity: validated with the library's validator (not independent), no theorem.",
+   technique="Coq proof over tree-operation model + in-Coq RFC tree hash recomputation + node-by-node correspondence"),
 }
 NOT_YET = {}
 props = [json.loads(l) for l in open(os.path.join(V, "properties.jsonl"))]
